@@ -344,8 +344,13 @@ func runC15(cfg config) {
 		tz  string
 		vus int64
 	}{{"+05:30", 1582914600000000}, {"-11:00", 1582974000000000}, {"+13:00", 1582887600000000}} { // local midnight of 2020-02-29
-		for _, p := range []dtpb.Date_Precision{dtpb.Date_YEAR, dtpb.Date_MONTH, dtpb.Date_DAY} {
-			pd := &dtpb.Date{ValueUs: zc.vus, Precision: p, Timezone: zc.tz}
+		for _, p := range []dtpb.Date_Precision{dtpb.Date_YEAR, dtpb.Date_MONTH, dtpb.Date_DAY, dtpb.Date_DAY + 100, dtpb.Date_MONTH + 100} {
+			vus := zc.vus
+			if p >= 100 { // the same element built from an instant during that day (fhir.Date(t)): 13:45:05 local time
+				p -= 100
+				vus += (13*3600 + 45*60 + 5) * 1000000
+			}
+			pd := &dtpb.Date{ValueUs: vus, Precision: p, Timezone: zc.tz}
 			want := map[dtpb.Date_Precision]string{dtpb.Date_YEAR: "2020", dtpb.Date_MONTH: "2020-02", dtpb.Date_DAY: "2020-02-29"}[p]
 			sv, err := system.DateFromProto(pd)
 			same := false
@@ -355,7 +360,7 @@ func runC15(cfg config) {
 				lit, err3 := system.ParseDate(want)
 				same = err2 == nil && err3 == nil && p2.Precision == p && strings.TrimPrefix(sv.String(), "@") == want && sv2.String() == sv.String() && sv.Equal(lit) && sv2.Equal(lit)
 			}
-			addRound("RProtoSysProto", true, 0, "Date proto precision "+p.String()+" tz "+zc.tz+" (calendar day)", same)
+			addRound("RProtoSysProto", true, 0, fmt.Sprintf("Date proto precision %s tz %s value_us %d (calendar day)", p, zc.tz, vus), same)
 		}
 	}
 	for _, p := range []dtpb.DateTime_Precision{dtpb.DateTime_YEAR, dtpb.DateTime_MONTH, dtpb.DateTime_DAY, dtpb.DateTime_SECOND, dtpb.DateTime_MILLISECOND, dtpb.DateTime_MICROSECOND} {
